@@ -117,7 +117,7 @@ SessBuild(p) == CASE Family = "medium" -> MedB(p) [] Family = "wide" -> WideB(p)
 (* field widths and of the FEC schemes (RFC 5053 K <= 8192, RFC 6330 K' <= 56403, RFC 5510 n <= 255, ...)     *)
 W == INSTANCE Wire
 XSchemes == <<0, 1, 5, 6, 129>>
-XB == <<1, 2, 255, 256, 8192, 8193, 56403, 56404, 65535>>
+XB == <<1, 2, 255, 256, 8192, 8193, 56403, 56404, 65535, 2147483647>>   \* the last one for No-Code only (32-bit field)
 XE == <<1, 4, 64>>
 XZNA == << <<1, 1, 1>>, <<0, 1, 1>>, <<1, 0, 1>>, <<1, 1, 0>>, <<255, 1, 4>>, <<1, 255, 4>>, <<2, 2, 2>> >>
 \* transfer length classes: one full block, one byte more, one byte, empty, 2^32-1, 2^40-1, 2^48-1
@@ -209,8 +209,9 @@ ChanBuild(s, k) ==
          LET H(a, i) == (((a * 7919 + i * 104729 + i * i * 31 + a * i * 977) % 10007) * 100) \div 10007
              mult(i) == IF H(k[1], i) < k[2] THEN 0 ELSE IF H(k[1] + 50, i) < k[3] THEN 2 ELSE 1
          IN [sid |-> sid, fam |-> "dups", loss |-> k[2], dup |-> k[3], seed |-> k[1], sched |-> MaskOps([i \in 1..n |-> mult(i)], 1, n)]
-    [] Family = "c04x"    -> [sid |-> sid, fam |-> "c04x", prefix |-> 0, what |-> <<XSchemes[k[1]], XB[k[2]], XE[k[3]]>>,
-                              adv |-> <<"rawset", XSet(XSchemes[k[1]], XB[k[2]], XE[k[3]])>>]
+    [] Family = "c04x"    -> LET B == IF XSchemes[k[1]] # 0 /\ XB[k[2]] > 65535 THEN 65535 ELSE XB[k[2]] IN
+                             [sid |-> sid, fam |-> "c04x", prefix |-> 0, what |-> <<XSchemes[k[1]], B, XE[k[3]]>>,
+                              adv |-> <<"rawset", XSet(XSchemes[k[1]], B, XE[k[3]])>>]
     [] Family = "mem"     ->
          LET keep(i) == LET q == Sess[s].pkts[i] IN
                         CASE k[1] = "nofdt"    -> q.k = "obj"
